@@ -260,6 +260,7 @@ func renderRun(c *Case, r *Run, ctx map[string]interface{}) (o obs) {
 	if entry == "" {
 		entry = c.Entry
 	}
+	r.Pads = resolvePads(r.Tp, r.Pads)
 	srcs := map[string]string{}
 	for name, ps := range r.Tp {
 		srcs[name] = sourceOf(ps, r.Pads)
